@@ -192,7 +192,10 @@ class Verifier(ExprMixin, StmtMixin, CallMixin, LibMixin, SpecMixin):
                 blk = getattr(parent, field, None)
                 if isinstance(blk, list):
                     for i, stmt in enumerate(blk):
-                        if isinstance(stmt, ast.stmt) and head(stmt) == want:
+                        if want.startswith("@assign:"):
+                            if isinstance(stmt, ast.Assign) and len(stmt.targets) == 1 and ast.unparse(stmt.targets[0]) == want.split(":", 1)[1]:
+                                hits.append((stmt.lineno, blk, i))
+                        elif isinstance(stmt, ast.stmt) and head(stmt) == want:
                             hits.append((stmt.lineno, blk, i))
         hits.sort(key=lambda h: h[0])
         k = seg.get("start_ordinal", 1)
